@@ -5,6 +5,7 @@ from .common import TRUSTED, ASSUMPTIONS, default_nontrivial, LEVEL_NOTE, TECHNI
 LEVEL = "proof"
 THEOREMS = ["C06_refines", "C06_wf", "C06_outer", "C06_max_u", "C06_transpose", "C06_vacuous", "C06_dogmatic",
             "C06_unlabelled_accepts", "C06_labelled", "C06_refines3", "C06_wf3"]
+EXTRA_MODULES = [("SLV.Props.OracleSpec", ("OS_outer", "OS_product", "OS_projQ"))]
 RULE = ("prod2 / prod3 on pairs/triples of well-formed opinions (zero base rates, vacuous, dogmatic), factor sizes 2..3, dyadic grids "
         "(denominators 4..16), unlabelled (validated) and labelled (normalised) implementations, owned and OpinionRef; each pair also "
         "with factors exchanged (cross-case: transposition); f32+f64. non-trivial = value returned")
